@@ -124,6 +124,11 @@ func genC15(tier string, seed uint64, emit func(string)) {
 		acts = append(acts, "stop", "obs")
 		emit(lifeLine("plain", acts))
 	}
+	// clients whose TLS handshake fails (and who keep their side open) are disconnected, before and across Stop
+	for _, kind := range []string{"plaintext", "none", "garbage", "foreign"} {
+		k := kind
+		emit(lifeLine("plain tls", []string{"start", "tlsbad:" + k, "obs", "ping:t", "stop", "obs", "start", "tlsbad:" + k, "tlsbad:" + k, "restart", "ping:t", "stop", "obs"}))
+	}
 	// forced schedules (hook H2): in each scenario the goroutines reaching the chosen schedule points are held back for
 	// 25 ms, so that the lifecycle call, the accept loops and the connection goroutines overtake each other in
 	// every order of those points - all single points and all pairs (quick), all subsets (thorough)
@@ -185,6 +190,10 @@ func oracleC15(cfg []string, results []string) string {
 			running = true
 		case a == "stop" && v == "ok", a == "stopstorm" && v == "ok":
 			running = false
+		case strings.HasPrefix(a, "tlsbad:") && (v == "hang" || strings.HasPrefix(v, "served")):
+			{
+				return fmt.Sprintf("fail:a client whose TLS handshake failed was neither served nor disconnected (%s at step %d)", r, i)
+			}
 		case a == "stopstorm":
 			return fmt.Sprintf("fail:Stop did not return while clients kept connecting (%s at step %d)", r, i)
 		case (a == "ping:p" || a == "ping:t") && running && v != "ok":
@@ -242,6 +251,9 @@ func genC19(tier string, seed uint64, emit func(string)) {
 		_ = st
 	}
 	emit(lifeLine("plain tls", []string{"start", "open:p:a", "open:t:b", "open:p:c", "stallreq:a", "stallreq:b", "stallreq:c", "obs", "stop", "obs", "alive:a", "alive:b", "alive:c"}))
+	// a second Start on the running server fails (ports in use) and must leave the served connections releasable
+	emit(lifeLine("plain tls", []string{"start", "open:p:a", "open:t:b", "start", "obs", "cmd:a", "cmd:b", "cclose:a", "obs", "start", "stop", "obs", "alive:b"}))
+	emit(lifeLine("plain", []string{"start", "open:p:a", "start", "start", "obs", "restart", "obs", "alive:a", "open:p:c", "start", "stop", "obs", "alive:c"}))
 	// Stop as the ending, with several connections in flight
 	emit(lifeLine("plain tls", []string{"start", "open:p:a", "open:t:b", "open:p:c", "obs", "stop", "obs", "alive:a", "alive:b", "alive:c"}))
 	// churn mixing all endings
